@@ -63,7 +63,7 @@ def run(ctx):
         raise mc["exc"]
     if "assumption" not in mc["neg"]["violated"]:
         raise verif.MachineryError("negative twin of Fn_BucketsMC (group = byte mod t = n) was not refuted by TLC")
-    n, bad, lines = ctx.check_records("Fn_Buckets", os.path.join(out, "recs.ndjson"), shard=ctx.pick(700, 1500))
+    n, bad, lines = ctx.check_records("Fn_Buckets", os.path.join(out, "recs.ndjson"), shard=ctx.pick(1600, 1500))
     seen = {}
     for i in bad:
         r = json.loads(lines[i - 1])
@@ -95,4 +95,4 @@ def run(ctx):
                         ["Fn_Buckets.tla is the oracle: for n/t the selections for n = 1..t must be pairwise disjoint and cover all packs (the grouping itself is left open), every documented n/t (1 <= n <= t <= 256) must be accepted; an accepted percentage/size flag must select a non-empty subset of a non-empty pack set; documented example values must be accepted",
                          "pack IDs are abstracted to tokens by the driver; selections are produced by the real checkFlags + buildPacksFilter pipeline",
                          "PartitionFast (cover + cardinalities add up) is what TLC evaluates on records; its equivalence with the declarative Partition is checked by TLC in Fn_BucketsMC, together with the reference grouping for all t in 1..256 and a refuted off-by-one twin",
-                         "random selections are sampled (quick 3, thorough 25 repetitions per flag and pack set)"])
+                         "random selections are sampled (quick 2, thorough 25 repetitions per flag and pack set)"])
